@@ -238,3 +238,10 @@ def test_fixed_F19_policy_iteration_batch_after_an_integer_discount():
         return Dict2MDP({0: {'a': {0: 1.0}}}, {(0, 'a'): -1.0}, {0: 1.0}, gamma=g)
     b = PolicyIteration().batch_plan_on([loop(0), loop(0.9)])
     assert float(b[1].state_value[0]) == pytest.approx(-10.0)
+
+
+def test_fixed_F20_augment_of_an_augmented_mdp():
+    from msdm.core.semimdp.option import augment
+    m = Dict2MDP({0: {'a': {1: 1.0}}, 1: {'a': {1: 1.0}}}, {(0, 'a'): -1.0}, {0: 1.0}, absorbing=[1], gamma=0.9)
+    twice = augment(augment(m, reward=lambda s, a, ns: 5.0), is_absorbing=lambda s: False)
+    assert twice.reward(0, 'a', 1) == 5.0 and twice.is_absorbing(1) is False and tuple(twice.actions(0)) == ('a',)
